@@ -7,6 +7,15 @@ NOTES = ("All checks: ./check <ID> [--tier quick|thorough]; seed from VERIF_SEED
 NOT_APPLICABLE = {}
 
 CHECKS = {
+ "C01": {
+  "level": "exploration",
+  "technique": "property-based testing: Hypothesis-generated programs vs an independent possible-world enumerator (exact rationals)",
+  "text": "Thousands of generated programs per run in the stated fragment (facts, probabilistic facts, ADs, rules, stratified negation, "
+          "positive recursion, ground/non-ground/negated queries, evidence) are evaluated by ProbLog and by an independent "
+          "reference semantics; every reported probability, every unreported instance and the inconsistent-evidence verdict are compared.",
+  "note": "Trusts pbt/ref/semantics.py as the distribution semantics; programs are small (<=3 constants, <=10/13 relevant choices); "
+          "hangs are inconclusive; four listed engine defects (F-ENG-1..4) are excluded by (signature, case class) and counted.",
+ },
  "C34": {
   "level": "exploration",
   "technique": "model-based property testing: Hypothesis operation histories vs reference container models, step-wise comparison",
